@@ -177,6 +177,11 @@ def applyAffixes (p lead trail : Str) : Except Nat Str :=
 def keepAffixes (f : Str → Str) (p : Str) : Except Nat Str :=
   applyAffixes (f p) (getAffixes p).1 (getAffixes p).2
 
+/-- `api._translate_glob_path(path)`: the transform, with only the trailing `/` of the argument restored
+(patterns and matches of `glob()` / `static()` on their way to the director). -/
+def globPath (f : Str → Str) (p : Str) : Except Nat Str :=
+  applyAffixes (f p) [] (getAffixes p).2
+
 /-- `get_stepup_root`: `Path(os.getenv("STEPUP_ROOT", os.getcwd())).absolute()` -/
 def getRoot (cwd : Str) (envRoot : Option Str) : Str := abspath cwd (envRoot.getD cwd)
 
